@@ -146,7 +146,7 @@ CLAIMED = {
             "the timeout give non-zero; the timeout schedules the stop; PARTIAL by nature for the wall-clock half: real vncdo "
             "processes run against scripted loopback servers with faults (refuse, RFB refusal, auth failure, unknown security type, "
             "close, reset, unknown message/encoding, silence) at every point of the conversation for 3.3/3.7/3.8 and five scripts, "
-            "incl. 12 MiB of output against a non-reading / resetting server; exit status, termination and wall time <= T + 2.5 s judged; "
+            "incl. 12 MiB of output against a non-reading / resetting server; exit status, termination and wall time <= T + 1 s + twice the measured cost of a vncdo process judged; "
             "the machine is compared on each scenario's event sequence",
             "which reactor events a server behaviour produces, the kernel's socket teardown and the wall clock are sampled, not "
             "proved; open finding c09-abort-then-buffered-update",
